@@ -600,6 +600,45 @@ def _damaged(variant, k, damage):
                    nontrivial=_nontrivial(want) and bad_bytes != raw)
 
 
+@S.kind("damage-any-file")
+def damage_any_file(variant, which, frac, damage):
+    """Whatever files the cache keeps in its directory (entries, and any book-keeping a cache may write next to them): one
+    of them, picked by position, is left damaged by an interrupted run; a new process then makes the stored request, a
+    different request, and both again.  Nothing may raise and every answer must be the cache-free result."""
+    _, _, want, req = entry(variant)
+    other = dict(req, meas_pt=[req["meas_pt"][0] + 10.0, req["meas_pt"][1]])
+    want_other = solve(other)
+    Rec = rec_class()
+    d = _tmpdir()
+    try:
+        solve(req, rec_class()(d))
+        files = sorted(os.path.relpath(os.path.join(r, f), d) for r, _, fs in os.walk(d) for f in fs)
+        if not files:
+            return Verdict(False, "the cache wrote no file", key="cache-wrote-nothing")
+        name = files[which % len(files)]
+        with open(os.path.join(d, name), "rb") as f:
+            raw = f.read()
+        k = min(int(frac * len(raw)), max(len(raw) - 1, 0))
+        with open(os.path.join(d, name), "wb") as f:
+            f.write(_damage(raw, k, damage))
+        c = Rec(d)
+        for step, (r_, w_) in enumerate(((req, want), (other, want_other), (req, want), (other, want_other))):
+            try:
+                got = solve(r_, c)
+            except Exception as e:
+                return Verdict(False, "file %s of the cache directory (%d bytes) %s at %d: request %d afterwards raised %s (%s)"
+                               % (name if not name.endswith(".npz") else "<entry>.npz", len(raw), damage, k, step, type(e).__name__, str(e)[:80]),
+                               key="damaged-cache-file-is-fatal")
+            bad = differs(got, w_)
+            if bad:
+                return Verdict(False, "file %s %s at %d/%d: request %d afterwards returned wrong fields: %s" % (name, damage, k, len(raw), step, bad),
+                               key="damaged-cache-file-wrong-data")
+    finally:
+        shutil.rmtree(d, ignore_errors=True)
+    return Verdict(True, "%d file(s); #%d %s at %d/%d; four requests served correctly" % (len(files), which % len(files), damage, k, len(raw)),
+                   nontrivial=_nontrivial(want))
+
+
 @S.kind("npload-contract")
 def npload_contract(variant, offset, damage="cut"):
     raw, fname, want, req = entry(variant)
@@ -694,6 +733,12 @@ def generate(tier, rng):
             for k in _offsets(n, tier)[1:-1:(1 if tier == "thorough" else 4)]:
                 yield "truncate", dict(variant=variant, offset=k, damage=damage)
                 yield "npload-contract", dict(variant=variant, offset=k, damage=damage)
+    # every file the cache keeps in its directory, damaged one at a time
+    for which in range(3):
+        for frac in (0.0, 0.02, 0.34, 0.67, 0.999):
+            for damage in ("cut", "zero-block", "flip"):
+                if which == 0 or tier == "thorough" or damage == "cut":
+                    yield "damage-any-file", dict(variant=("2d", "3d")[which % 2], which=which, frac=frac, damage=damage)
 
 
 def _quiet_exit():
